@@ -6,7 +6,8 @@ runs : generated multimodal sampler runs x cluster_every x n_max_clusters x norm
        checkpoint), observed by wrapping parallel_mcmc, i.e. exactly what mutation receives.
 Oracle at every mutation (resp. after train+resample): every label in [0,K); every referenced mode has a finite mean, a symmetric
 scale matrix with positive Cholesky factor and finite dof > 0; same-cluster provenance: the mean of mode r lies in the bounding box
-of the pool points the shared clusterer assigns to label r (whenever the trainer had at least one training point of that label).
+of the pool points the shared clusterer assigns to label r (whenever the trainer had at least one training point of that label);
+membership: no active particle carries the label of a cluster it demonstrably does not belong to.
 """
 import glob
 import os
@@ -78,6 +79,32 @@ def check_provenance(ms, labels, clusterer, pool_u, trained_labels, where):
                             f"(their bounding box is [{np.round(lo, 4).tolist()}, {np.round(hi, 4).tolist()}])", sig={"kind": "mode-of-other-cluster"})
         n_checked += 1
     return n_checked
+
+
+def check_membership(labels, u_active, clusterer, pool_u, where):
+    """A particle labelled r must be a particle of cluster r. Flagged only when BOTH hold (so that any reasonable assignment rule
+    passes): the clusterer that defined the modes assigns the particle to another cluster, and the particle lies outside the
+    bounding box of the pool points of cluster r."""
+    if clusterer is None or getattr(clusterer, "n_clusters_", 0) < 2:
+        return 0
+    labels, u_active = np.asarray(labels), np.asarray(u_active, dtype=float)
+    pred = np.asarray(clusterer.predict(u_active))
+    pl = np.asarray(clusterer.predict(pool_u))
+    bad = np.flatnonzero(pred != labels)
+    n_bad = 0
+    for k in bad:
+        P = pool_u[pl == labels[k]]
+        if len(P) == 0:
+            continue
+        lo, hi = P.min(0), P.max(0)
+        if np.any(u_active[k] < lo - 1e-9) or np.any(u_active[k] > hi + 1e-9):
+            n_bad += 1
+            first = k
+    if n_bad:
+        raise Violation(f"{where}: {n_bad} of {len(labels)} active particles carry the label of a cluster they do not belong to (e.g. particle at "
+                        f"{np.round(u_active[first], 4).tolist()} is labelled {int(labels[first])}, the clusterer assigns it to {int(pred[first])} and it lies "
+                        f"outside the bounding box of cluster {int(labels[first])}'s particles)", sig={"kind": "particle-in-wrong-cluster"})
+    return len(bad)
 
 
 def trimmed_labels(trainer, weights, pool_u):
@@ -172,6 +199,7 @@ def exec_pool(case):
         K = check_modes(ms, labels, where)
         tl = trimmed_labels(trainer, w, pool_u)
         check_provenance(ms, labels, clusterer, pool_u, tl, where)
+        check_membership(labels, sm.get_current("u"), clusterer, pool_u, where)
         if clusterer.n_clusters_ > len(tl or ()):
             untrained += 1
         if not (it % case["cluster_every"] == 0):
@@ -237,6 +265,7 @@ def exec_run(case):
             pool_u = core.state.get_history("u", flat=True)
             tl = trimmed_labels(core.trainer, ctx["w"], pool_u) if "w" in ctx and len(ctx["w"]) == len(pool_u) else None
             stats["prov"] += check_provenance(ms, labels, core.trainer.clusterer, pool_u, tl, where)
+            check_membership(labels, kw["u"], core.trainer.clusterer, pool_u, where)
             stats["calls"] += 1
             if len(set(labels.tolist())) >= 2:
                 stats["k2"] += 1
